@@ -84,6 +84,9 @@ def react_programs(tick, unit, tf, kind):
     out.append(('long-market-if-bullish-w%d' % w, {'tick': tick, 'unit': unit, 'side': 'long', 'enter': {'when': 'bullish', 'legs': [[1, 0]]}, 'on_open': ex0, 'cancel_entry': True}))
     out.append(('long-market-if-bullish1m-w%d' % w, {'tick': tick, 'unit': unit, 'side': 'long', 'enter': {'when': 'bullish1m', 'legs': [[1, 0]]}, 'on_open': ex0, 'cancel_entry': True}))
     out.append(('long-market-if-breakout-w%d' % w, {'tick': tick, 'unit': unit, 'side': 'long', 'enter': {'when': 'breakout', 'legs': [[1, 0]]}, 'on_open': ex0, 'cancel_entry': True}))
+    # the exit is placed at the first trading-candle close at which the framework lists no entry order any more
+    out.append(('long-market-tp-when-no-entry-orders-w%d' % w, {'tick': tick, 'unit': unit, 'side': 'long', 'enter': {'when': 'flat', 'legs': [[1, 0]]},
+                                                                'tp_when_no_entry_orders': 2, 'cancel_entry': True}))
     # an entry that is kept across trading candles, and a stop that is moved at every trading-candle close
     b = {'tick': tick, 'unit': unit, 'side': 'long'}
     ex = {'tp': 'all', 'tp_d': w}
